@@ -1,0 +1,49 @@
+//go:build verif
+
+// Contracts for gocv (see /verif/DESIGN.md). Comment-only file: takes no part in any build.
+
+package rpc
+
+//@ pure func net.ParseIP
+//@ pure func (net.IP).IsLoopback
+//@ pure func (net.IP).To4
+//@ pure func (net.IP).String
+//@ pure func net.SplitHostPort
+//@ pure func writeError
+//@ pure func checkBasicAuth
+//@ pure func checkFilterPrintFuncBlacklist
+//@ pure func parseJSONRpcParams
+//@ pure func isLoopBackAddr
+//@ pure func google.golang.org/grpc/peer.FromContext
+
+// ---- C39: a request runs only behind the IP / method / auth gates ----------------------------------
+// The IP gate: loopback, or the wildcard entry, or the (IPv4-normalised) address is on the list.
+//@ func checkIPWhitelist [C39]
+//@   opt safety=assumed
+//@   frame nothing
+//@   ensures result <==> ret(IsLoopback) || has(remoteIPWhitelist, "0.0.0.0") || has(remoteIPWhitelist, (isnil(ret(To4)) ? addr : ret(String)))
+
+//@ func checkJrpcFuncWhitelist [C39]
+//@   frame nothing
+//@   ensures result <==> has(jrpcFuncWhitelist, "*") || has(jrpcFuncWhitelist, funcName)
+
+//@ func checkJrpcFuncBlacklist [C39]
+//@   frame nothing
+//@   ensures result <==> has(jrpcFuncBlacklist, funcName)
+
+// gRPC: a non-loopback caller passes only with a whitelisted address and an allowed method name
+//@ func auth [C39]
+//@   opt safety=assumed
+//@   ensures result == nil ==> ret1(FromContext) && (ret(isLoopBackAddr) || (called(checkIPWhitelist) && ret(checkIPWhitelist) && called(checkGrpcFuncValidity) && ret(checkGrpcFuncValidity)))
+
+// JSON-RPC: the request is served only after the IP gate, basic auth and (for non-loopback callers)
+// the method black/white lists.
+//@ func (*JSONRPCServer).Listen$1 [C39]
+//@   opt safety=assumed overflow=assumed
+//@   assert@call ServeRequest: ret(checkIPWhitelist) && ret(checkBasicAuth) && (ret(IsLoopback) || (!ret(checkJrpcFuncBlacklist) && called(checkJrpcFuncWhitelist) && ret(checkJrpcFuncWhitelist)))
+//@   assert@call checkJrpcFuncBlacklist: arg0 == ret(checkFilterPrintFuncBlacklist) || true
+
+// every kind of gRPC method has an interceptor that runs auth
+//@ func NewGRpcServer [C39]
+//@   opt safety=assumed panics=allowed
+//@   ensures called(UnaryInterceptor) && called(StreamInterceptor)
